@@ -75,6 +75,13 @@ def main(argv):
                 ok = ok and good
                 print('%-7s %-9s props=%s expected=%s %s' % (r['seed'], r['status'], r.get('props'), exp, '' if good else '  <-- UNEXPECTED'))
             return 0 if ok else 1
+        if argv[0] == 'harmless':
+            from . import thorough
+            bad = 0
+            for r in thorough.harmless(workers=4):
+                print('%-8s %-11s %s' % (r['patch'], r['status'], r.get('props') or r.get('detail') or ''))
+                bad += r['status'] == 'FALSE-ALARM'
+            return 1 if bad else 0
         if argv[0] == 'selftest':
             G = driver.assemble()
             print('selftest: generated %d lines, %d functions, %d obligations' % (len(G.linemap), len(G.fns), len(G.obligations)))
